@@ -120,6 +120,7 @@ class PandocParser:
         """
         section: Section | None = None
         section_trace: list[str] = []
+        level_trace: list[int] = []
         card = Card(None, template=None)
 
         # Parsing the flat structure, not recursively as in pandocfilters. After
@@ -130,7 +131,12 @@ class PandocParser:
             if item["t"] == "Header":
                 content, level = self._parse_header(item, section_trace=section_trace)
                 res = self._post_process(content)
-                section_trace = section_trace[: level - 1] + [res]
+                # the parent is the nearest preceding header of a lower level
+                while level_trace and level_trace[-1] >= level:
+                    level_trace.pop()
+                    section_trace.pop()
+                level_trace.append(level)
+                section_trace.append(res)
                 section = self._add_section(res, card=card, section_trace=section_trace)
             else:
                 res = self._post_process(self.mapping(item))
